@@ -167,4 +167,7 @@ def targets(tier, S):
                             + f'loops unwound {n + 1}x with unwinding assertions; sequential consistency; wait(lock, pred) blocks until pred (notify abstracted)',
                       note='BOUNDED interleavings (CBMC threads, partial-order encoding) of the extracted pool code; never counted as proved')
     out.append(scen_a(2, True))
+    import os
+    if os.environ.get('NV_C17_TWO_WORKERS'):     # opt-in: does not terminate within 280 s with CBMC 6.11 (see not_decided)
+        out.append(scen_a(2, False))
     return out
